@@ -386,7 +386,21 @@ func nestSameBody(r *lib.Rand, spec hcldec.Spec, scopeNames []string) hcldec.Spe
 	}
 	pass := func(cty.Value) hcl.Diagnostics { return nil }
 	wrap := func(x hcldec.Spec) hcldec.Spec {
-		switch r.Intn(5) {
+		switch r.Intn(7) {
+		case 5, 6:
+			// a default around a wrapper: DefaultSpec is itself "block-like" for the walkers (it forwards the
+			// nested spec of its primary), yet it has same-body children that must still be visited
+			dflt := &hcldec.LiteralSpec{Value: cty.NullVal(cty.DynamicPseudoType)}
+			switch r.Intn(4) {
+			case 0:
+				return &hcldec.DefaultSpec{Primary: &hcldec.ValidateSpec{Wrapped: x, Func: pass}, Default: dflt}
+			case 1:
+				return &hcldec.DefaultSpec{Primary: hcldec.TupleSpec{x}, Default: dflt}
+			case 2:
+				return &hcldec.DefaultSpec{Primary: hcldec.ObjectSpec{"w": x}, Default: dflt}
+			default:
+				return &hcldec.DefaultSpec{Primary: &hcldec.RefineValueSpec{Wrapped: x, Refine: func(b *cty.RefinementBuilder) *cty.RefinementBuilder { return b }}, Default: dflt}
+			}
 		case 4:
 			// a transform over the decoded value without a context of its own: its expression may use the
 			// value (v0) only — a reference to anything else must stay an error whatever the caller's scope
@@ -501,6 +515,11 @@ func checkBody(cx *lib.Ctx, r *lib.Rand, b *evalgen.BodyCase, mode string) {
 		nested := nestSameBody(r.Fork(), spec, b.Scope.Names())
 		probes = append(probes, probe{"hcldec.Variables (same-body specs nested)", hcldec.Variables(b.Body, nested), decodeEvaluatorSpec(b, false, nested), evalgen.BodyFreeRoots(b.Tree, false), "hcldec-variables-nested"})
 	default:
+		if r.Chance(1, 2) {
+			// the walkers find nested specs through hcldec.ChildBlockTypes: same-body wrappers must not hide them
+			nested := nestSameBody(r.Fork(), spec, nil)
+			probes = append(probes, probe{"dynblock.VariablesHCLDec (same-body specs nested)", dynblock.VariablesHCLDec(b.Body, nested), decodeEvaluatorSpec(b, true, nested), evalgen.BodyFreeRoots(b.Tree, false), "dynblock-variables-nested"})
+		}
 		probes = append(probes,
 			probe{"dynblock.VariablesHCLDec", dynblock.VariablesHCLDec(b.Body, spec), decodeEvaluator(b, true), evalgen.BodyFreeRoots(b.Tree, false), "dynblock-variables"},
 			probe{"dynblock.ExpandVariablesHCLDec", dynblock.ExpandVariablesHCLDec(b.Body, spec), expansionEvaluator(b), evalgen.BodyFreeRoots(b.Tree, true), "dynblock-expand-variables"})
@@ -700,11 +719,15 @@ func handCorpus() []*evalgen.Case {
 			"y":  cty.StringVal("why"),
 			"k":  cty.StringVal("kay"),
 			"xs": cty.MapVal(map[string]cty.Value{"a": cty.StringVal("A")}),
+			"ol": cty.ListVal([]cty.Value{cty.ObjectVal(map[string]cty.Value{"tags": cty.ListVal([]cty.Value{cty.ObjectVal(map[string]cty.Value{"name": cty.StringVal("t0")}), cty.ObjectVal(map[string]cty.Value{"name": cty.StringVal("t1")})})})}),
+			"i":  cty.NumberIntVal(1),
+			"j":  cty.NumberIntVal(0),
 		}, Node: n}
 		c.Render()
 		return c
 	}
 	v := evalgen.V
+	fsplat := func(x *lib.Node) *lib.Node { return &lib.Node{K: "fsplat", Kids: []*lib.Node{x}} }
 	return []*evalgen.Case{
 		mk(&lib.Node{K: "fortuple", S: "x", Kids: []*lib.Node{v("x"), v("x")}}),
 		mk(&lib.Node{K: "fortuple", S: "x", S2: "k", Kids: []*lib.Node{v("xs"), evalgen.Tuple(v("k"), v("x"), v("y"))}}),
@@ -715,6 +738,14 @@ func handCorpus() []*evalgen.Case {
 		mk(evalgen.Attr(&lib.Node{K: "fsplat", Kids: []*lib.Node{v("x")}}, "y")),
 		mk(&lib.Node{K: "object", Kids: []*lib.Node{{K: "ident", S: "y"}, v("y"), v("k"), v("x")}}),
 		mk(evalgen.Index(v("xs"), v("k"))),
+		// a variable index key inside the traversal that follows a splat, itself followed by further steps
+		mk(evalgen.Attr(evalgen.Index(evalgen.Attr(fsplat(v("ol")), "tags"), v("i")), "name")),
+		mk(evalgen.Index(evalgen.Index(evalgen.Attr(fsplat(v("ol")), "tags"), v("i")), v("j"))),
+		mk(evalgen.Index(evalgen.Attr(fsplat(v("ol")), "tags"), v("i"))),
+		mk(evalgen.Attr(evalgen.Index(evalgen.Attr(evalgen.Index(fsplat(v("ol")), v("j")), "tags"), v("i")), "name")),
+		mk(evalgen.Attr(evalgen.Index(fsplat(evalgen.Attr(evalgen.Index(v("ol"), v("j")), "tags")), v("i")), "name")),
+		mk(&lib.Node{K: "tmpl", Kids: []*lib.Node{{K: "tfor", S: "t", Kids: []*lib.Node{evalgen.Attr(evalgen.Index(evalgen.Attr(fsplat(v("ol")), "tags"), v("i")), "name"), {K: "tmpl", Kids: []*lib.Node{{K: "interp", Kids: []*lib.Node{v("t")}}}}}}}}),
+		mk(evalgen.Tuple(evalgen.Attr(evalgen.Index(evalgen.Attr(fsplat(v("ol")), "tags"), evalgen.Bin("+", v("i"), v("j"))), "name"), v("y"))),
 	}
 }
 
